@@ -98,26 +98,11 @@ theorem Db.hasType_of_mem {db : Db} {r : UnitRow} (h : r ∈ db.units) : db.hasT
   unfold Db.hasType
   exact List.any_eq_true.mpr ⟨r, h, by simp⟩
 
-/-- what the code relies on: `AddUnit` refuses a symbol twice, and no category is named like a
-quantity type of another type.  Both are table predicates (`symuniq`, `cattype`). -/
-structure Db.Regular (db : Db) : Prop where
-  uniq : ∀ r ∈ db.units, db.unitBySym r.sym = some r
-  typeNames : ∀ c ∈ db.cats, db.hasType c.name = true → c.qtype = c.name
+/-- the row `r` is the only row of the database whose symbol is `c` -/
+def Db.OnlyRow (db : Db) (c : Sym) (r : UnitRow) : Prop := ∀ a ∈ db.units, a.sym = c → a = r
 
-theorem Db.Regular.resolveQt {db : Db} (hr : db.Regular) {qt : Sym} (h : db.hasType qt = true) :
-    db.resolveQt qt = qt := by
-  unfold Db.resolveQt
-  split
-  · next c hc =>
-    unfold Db.catByName at hc
-    have hm := List.mem_of_find?_eq_some hc
-    have hn : c.name = qt := by simpa using List.find?_some hc
-    have := hr.typeNames c hm (by rw [hn]; exact h)
-    rw [this, hn]
-  · rfl
-
-theorem Db.Regular.find_unitsOfType {db : Db} (hr : db.Regular) {c : Sym} {r : UnitRow}
-    (hc : db.unitBySym c = some r) (qt : Sym) :
+theorem Db.find_unitsOfType_of_only {db : Db} {c : Sym} {r : UnitRow}
+    (hc : db.unitBySym c = some r) (hu : db.OnlyRow c r) (qt : Sym) :
     (db.unitsOfType qt).find? (·.sym == c) = if r.qtype == qt then some r else none := by
   obtain ⟨hmem, hsym⟩ := Db.unitBySym_some hc
   cases hf : (db.unitsOfType qt).find? (·.sym == c) with
@@ -131,12 +116,11 @@ theorem Db.Regular.find_unitsOfType {db : Db} (hr : db.Regular) {c : Sym} {r : U
   | some a =>
     have ha := List.mem_filter.mp (List.mem_of_find?_eq_some hf)
     have hs : a.sym = c := by simpa using List.find?_some hf
-    have hu := hr.uniq a ha.1
-    rw [hs, hc] at hu
-    cases hu
+    have hu' := hu a ha.1 hs
+    subst hu'
     simp [ha.2]
 
-theorem Db.Regular.tryInfo {db : Db} {c : Sym} {r : UnitRow} (hc : db.unitBySym c = some r) (qt : Sym) :
+theorem Db.tryInfo_of_symbol {db : Db} {c : Sym} {r : UnitRow} (hc : db.unitBySym c = some r) (qt : Sym) :
     db.tryInfo qt c = if r.qtype == qt then some r else none := by
   simp [Db.tryInfo, hc]
 
@@ -156,8 +140,9 @@ theorem Db.getInfo_of_not_symbol {db : Db} {l : Sym} (hl : db.unitBySym l = none
   rw [Db.tryInfo_of_not_symbol hl, Db.find_unitsOfType_of_not_symbol hl]
   rfl
 
-theorem Db.getInfo_of_symbol {db : Db} (hr : db.Regular) {c : Sym} {r : UnitRow}
-    (hc : db.unitBySym c = some r) (hst : isLegacy db.legacy c = false) (qt0 : Sym) (fu fl : Bool) :
+theorem Db.getInfo_of_symbol {db : Db} {c : Sym} {r : UnitRow}
+    (hc : db.unitBySym c = some r) (hu : db.OnlyRow c r) (hst : isLegacy db.legacy c = false)
+    (qt0 : Sym) (fu fl : Bool) :
     db.getInfo qt0 c fu fl =
       if r.qtype == qt0 then .ok r else
       if !db.hasType (db.resolveQt qt0) then .error .units else
@@ -166,7 +151,7 @@ theorem Db.getInfo_of_symbol {db : Db} (hr : db.Regular) {c : Sym} {r : UnitRow}
       | some r => .ok r
       | none => .error .units := by
   unfold Db.getInfo
-  rw [Db.Regular.tryInfo hc, hr.find_unitsOfType hc]
+  rw [Db.tryInfo_of_symbol hc, Db.find_unitsOfType_of_only hc hu]
   have hL : db.infoLegacy (db.resolveQt qt0) c fl = none := by simp [Db.infoLegacy, hst]
   rw [hL]
   by_cases h0 : (r.qtype == qt0) = true
@@ -183,6 +168,10 @@ structure Db.Alias (db : Db) (l c : Sym) (r : UnitRow) : Prop where
   fix : fixLegacy db.legacy l = c
   row : db.unitBySym c = some r
   stable : fixLegacy db.legacy c = c
+  /-- `AddUnit` refuses a symbol twice: `r` is the only row spelled `c` -/
+  only : db.OnlyRow c r
+  /-- a category named like the quantity type of `r` belongs to that type -/
+  typeName : ∀ ci, db.catByName r.qtype = some ci → ci.qtype = r.qtype
 
 namespace Db.Alias
 variable {db : Db} {l c : Sym} {r : UnitRow}
@@ -203,6 +192,12 @@ theorem mem (h : db.Alias l c r) : r ∈ db.units := (Db.unitBySym_some h.row).1
 
 theorem sym (h : db.Alias l c r) : r.sym = c := (Db.unitBySym_some h.row).2
 
+theorem resolveQt (h : db.Alias l c r) : db.resolveQt r.qtype = r.qtype := by
+  unfold Db.resolveQt
+  split
+  · next ci hci => exact h.typeName ci hci
+  · rfl
+
 end Db.Alias
 
 theorem Db.infoUnknown_none_of {db : Db} {qt : Sym} {fu : Bool}
@@ -214,17 +209,17 @@ theorem Db.infoUnknown_none_of {db : Db} {qt : Sym} {fu : Bool}
     simp [this]
 
 /-- the heart of C16: `GetInfo` answers a legacy spelling with the row of the current spelling -/
-theorem Db.getInfo_alias {db : Db} (hr : db.Regular) {l c : Sym} {r : UnitRow} (h : db.Alias l c r)
+theorem Db.getInfo_alias {db : Db} {l c : Sym} {r : UnitRow} (h : db.Alias l c r)
     (qt0 : Sym) {fu : Bool} (hU : fu = false ∨ r.qtype ≠ unknownQType) :
     db.getInfo qt0 l fu true = db.getInfo qt0 c fu true := by
-  rw [Db.getInfo_of_not_symbol h.notSym, Db.getInfo_of_symbol hr h.row h.notLegacy]
+  rw [Db.getInfo_of_not_symbol h.notSym, Db.getInfo_of_symbol h.row h.only h.notLegacy]
   have hLeg : ∀ qt, db.infoLegacy qt l true = if r.qtype == qt then some r else none := by
     intro qt
-    simp [Db.infoLegacy, h.isLegacy, h.fix, Db.Regular.tryInfo h.row]
+    simp [Db.infoLegacy, h.isLegacy, h.fix, Db.tryInfo_of_symbol h.row]
   by_cases h0 : (r.qtype == qt0) = true
   · have e0 : r.qtype = qt0 := by simpa using h0
     have hT : db.hasType qt0 = true := e0 ▸ Db.hasType_of_mem h.mem
-    have hR := hr.resolveQt hT
+    have hR : db.resolveQt qt0 = qt0 := e0 ▸ h.resolveQt
     rw [hR, hLeg, Db.infoUnknown_none_of (e0 ▸ hU)]
     simp [h0, hT]
   · simp only [h0, Bool.false_eq_true, ↓reduceIte]
@@ -257,12 +252,11 @@ theorem mem_deriveFor_snd {L : List (Sym × Sym)} {u : Sym} {p : Sym × Sym} (h 
   obtain ⟨lc, _, rfl⟩ := List.mem_map.mp h
   rfl
 
-/-- the three unit-table predicates give, for every derived spelling, everything the generic
-theorems ask for -/
+/-- the two unit-table predicates give, for every derived spelling, everything the generic theorems
+ask for -/
 theorem Db.alias_of_tables {db : Db}
     (h1 : db.units.all (UnitRow.notRewritten db.legacy) = true)
-    (h2 : db.units.all (UnitRow.derivedOk db.legacy) = true)
-    (h3 : db.units.all (UnitRow.isFirst db) = true) :
+    (h2 : db.units.all (UnitRow.derivedOk db) = true) :
     ∀ p ∈ db.derive, ∃ r, db.Alias p.1 p.2 r ∧ r.qtype ≠ unknownQType := by
   intro p hp
   unfold Db.derive at hp
@@ -270,42 +264,44 @@ theorem Db.alias_of_tables {db : Db}
   have hsnd := mem_deriveFor_snd hpr
   have hd := List.all_eq_true.mp h2 r hr
   unfold UnitRow.derivedOk at hd
-  simp only [Bool.and_eq_true, Bool.or_eq_true] at hd
-  have hpair := List.all_eq_true.mp hd.1 p hpr
+  have hne' : (deriveFor db.legacy r.sym).isEmpty = false := by
+    cases hde : deriveFor db.legacy r.sym with
+    | nil => rw [hde] at hpr; cases hpr
+    | cons a t => rfl
+  simp only [hne', Bool.false_or, Bool.and_eq_true, bne_iff_ne, ne_eq] at hd
+  obtain ⟨⟨⟨hall, hq⟩, honly⟩, hstab⟩ := hd
+  have hpair := List.all_eq_true.mp hall p hpr
   unfold derivedPairOk at hpair
   simp only [Bool.and_eq_true, beq_iff_eq, bne_iff_ne, ne_eq] at hpair
   obtain ⟨⟨hfix, hne⟩, _⟩ := hpair
+  unfold UnitRow.onlyOne at honly
+  have hfil : db.units.filter (·.sym == r.sym) = [r] := by simpa using honly
   have hrow : db.unitBySym r.sym = some r := by
-    have := List.all_eq_true.mp h3 r hr
-    simpa [UnitRow.isFirst] using this
+    unfold Db.unitBySym
+    rw [← List.head?_filter, hfil]; rfl
+  have honlyP : db.OnlyRow r.sym r := by
+    intro a ha hs
+    have : a ∈ db.units.filter (·.sym == r.sym) := List.mem_filter.mpr ⟨ha, by simp [hs]⟩
+    rw [hfil] at this
+    simpa using this
   have hst : fixLegacy db.legacy r.sym = r.sym := by
     have := List.all_eq_true.mp h1 r hr
     simpa [UnitRow.notRewritten] using this
-  refine ⟨r, ⟨?_, hfix, hsnd ▸ hrow, hsnd ▸ hst⟩, ?_⟩
-  · cases hq : db.unitBySym p.1 with
-    | none => rfl
-    | some r' =>
-      exfalso
-      obtain ⟨hm, hs⟩ := Db.unitBySym_some hq
-      have := List.all_eq_true.mp h1 r' hm
-      simp only [UnitRow.notRewritten, beq_iff_eq] at this
-      rw [hs, hfix] at this
-      exact hne this.symm
-  · rcases hd.2 with he | hq
-    · have : deriveFor db.legacy r.sym ≠ [] := List.ne_nil_of_mem hpr
-      simp only [List.isEmpty_iff] at he
-      exact absurd he this
-    · simpa using hq
-
-theorem Db.regular_of_tables {db : Db}
-    (h3 : db.units.all (UnitRow.isFirst db) = true)
-    (h4 : db.cats.all (CatRow.typeNameStable db) = true) : db.Regular where
-  uniq r hr := by
-    have := List.all_eq_true.mp h3 r hr
-    simpa [UnitRow.isFirst] using this
-  typeNames c hc ht := by
-    have := List.all_eq_true.mp h4 c hc
-    simpa [CatRow.typeNameStable, ht] using this
+  have htn : ∀ ci, db.catByName r.qtype = some ci → ci.qtype = r.qtype := by
+    intro ci hci
+    unfold UnitRow.typeNameStable at hstab
+    rw [hci] at hstab
+    simpa using hstab
+  refine ⟨r, ⟨?_, hfix, hsnd ▸ hrow, hsnd ▸ hst, hsnd ▸ honlyP, htn⟩, hq⟩
+  cases hq' : db.unitBySym p.1 with
+  | none => rfl
+  | some r' =>
+    exfalso
+    obtain ⟨hm, hs⟩ := Db.unitBySym_some hq'
+    have := List.all_eq_true.mp h1 r' hm
+    simp only [UnitRow.notRewritten, beq_iff_eq] at this
+    rw [hs, hfix] at this
+    exact hne this.symm
 
 /-! ### small facts used by the value-level theorems -/
 
